@@ -121,6 +121,7 @@ func runCheck(verifRoot, repoRoot, id, tier string, seed int64, only string, noR
 		e.known = kf.Findings
 	}
 	e.registerIntrinsics()
+	e.registerIntrinsics2()
 	defer os.RemoveAll(filepath.Join(verifRoot, ".work", fmt.Sprintf("%s-%d", cfg.Property, os.Getpid())))
 	if err := e.load(); err != nil {
 		fmt.Fprintln(os.Stderr, "load:", err)
@@ -438,6 +439,7 @@ func replayFile(verifRoot, repoRoot, path string) int {
 	}
 	e := &Engine{cfg: cfg, verifRoot: verifRoot, repoRoot: repoRoot}
 	e.registerIntrinsics()
+	e.registerIntrinsics2()
 	defer os.RemoveAll(filepath.Join(verifRoot, ".work", fmt.Sprintf("%s-%d", cfg.Property, os.Getpid())))
 	if err := e.load(); err != nil {
 		fmt.Fprintln(os.Stderr, "load:", err)
